@@ -213,7 +213,9 @@ Definition sealed_worker (price : Z) : worker :=
   mkW true (Some price) [] [] 0 0 None [] 0 None None.
 
 (* ---------- messages ---------- *)
-Record pitem := mkPI { pi_det : string; pi_price : Z; pi_dec : Z; pi_ts : Z }.
+(* pi_num: the price string is a decimal number (false: e.g. "abc"; pi_price is then meaningless). Such a message is
+   rejected by sanityCheck before the aggregator memory is touched (repaired behaviour, fix-c13-nonnumeric-price.patch). *)
+Record pitem := mkPI { pi_det : string; pi_price : Z; pi_dec : Z; pi_ts : Z; pi_num : bool }.
 Record psource := mkPS { ps_id : Z; ps_prices : list pitem }.
 Record msg := mkMsg { m_creator : Z; m_feeder : Z; m_base : Z; m_nonce : Z; m_prices : list psource }.
 Record tx := mkTx { t_msgs : list msg; t_size : Z; t_pk_ok : bool; t_sig_ok : bool }.
@@ -469,7 +471,7 @@ Definition det_source (sid : Z) : bool := sid =? 1.
 
 Definition sanity_source (p : params) (ps : psource) : bool :=
   let n := zlen (ps_prices ps) in
-  (1 <=? n) && (n <=? p_max_detid p) && valid_source (ps_id ps) &&
+  (1 <=? n) && (n <=? p_max_detid p) && valid_source (ps_id ps) && forallb pi_num (ps_prices ps) &&
   (if det_source (ps_id ps) then forallb (fun it => negb (String.eqb (pi_det it) EmptyString)) (ps_prices ps)
    else (n <=? 1) && forallb (fun it => String.eqb (pi_det it) EmptyString) (ps_prices ps)).
 
@@ -1022,6 +1024,7 @@ Definition count_msg_ok (p : params) (now : Z) (log : list sub) (before : state)
    | _, _ => false
    end) &&
   forallb (fun ps => forallb (fun it => (0 <=? pi_ts it) && (pi_ts it * 1000000000 <=? now + five_s)) (ps_prices ps)) (m_prices x) &&
+  forallb (fun ps => forallb pi_num (ps_prices ps)) (m_prices x) &&
   existsb (fun ps => existsb (fun it =>
              match first_price log (m_feeder x) (m_base x) (m_creator x) (pi_det it) with None => true | Some _ => false end)
              (ps_prices ps)) (m_prices x).
